@@ -2611,6 +2611,7 @@ class Model:
                     if (par.name, par.pop.name) in prog_vals:
                         if par.derivative:
                             par._dx = prog_vals[(par.name, par.pop.name)]  # For derivative parameters, overwrite the derivative rather than the value
+                            continue  # The value itself was not overwritten in this step, so there is nothing to convert
                         else:
                             par[ti] = prog_vals[(par.name, par.pop.name)]
 
